@@ -233,7 +233,10 @@ func (b backendResp) script(r *rng, et *endTables) []action {
 				acts = append(acts, action{Op: "hset", Key: "Content-Encoding", Val: b.Comp})
 			}
 			if len(b.Msgs) > 0 {
-				p, _ := payload(0)
+				p := b.Msgs[0]
+				if b.Comp == "gzip" { // no per-message flag without envelopes: the declared encoding applies
+					p = gzipBytes(p)
+				}
 				frames = [][]byte{p}
 			}
 		}
@@ -361,7 +364,7 @@ func init() {
 			if !sameCodec {
 				serverCodec = map[string]string{"proto": "json", "json": "proto"}[clientCodec]
 			}
-			limit := pick(r, []uint32{0, 0, 4096, 100, 40})
+			limit := pick(r, []uint32{0, 0, 4096})
 			cfg := e2eConfig{Service: libraryService, Protocols: []vanguard.Protocol{target}, Codecs: []string{serverCodec}, MaxMsg: limit}
 			var spec clientSpec
 			newResp := methGetBook.NewResp
@@ -382,6 +385,18 @@ func init() {
 			}
 			b := backendResp{Target: target, Streaming: streaming, Codec: serverCodec, Comp: pick(r, []string{"", "", "gzip", "identity"}),
 				Trailers: pick(r, respTrailerSets), Headers: pick(r, respHeaderSets), Split: r.intn(3), DeclTrailers: r.chance(1, 3)}
+			if b.DeclTrailers {
+				// the same key as response header and as declared trailer is inherently ambiguous
+				hk := map[string]bool{}
+				for _, h := range b.Headers {
+					hk[h[0]] = true
+				}
+				for _, t := range b.Trailers {
+					if hk[t[0]] {
+						b.DeclTrailers = false
+					}
+				}
+			}
 			nmsgs := 1
 			if streaming {
 				nmsgs = r.intn(4)
@@ -403,7 +418,7 @@ func init() {
 				b.Msgs = append(b.Msgs, plain)
 				b.Flags = append(b.Flags, r.chance(2, 3))
 				p := plain
-				if b.Comp == "gzip" && b.Flags[m] {
+				if b.Comp == "gzip" && (b.Flags[m] || (target == vanguard.ProtocolConnect && !streaming)) {
 					p = gzipBytes(plain)
 				}
 				tables.learn(p, newResp, serverCodec, clientCodec, lim)
@@ -448,6 +463,20 @@ func init() {
 				tag += "+cut"
 			}
 			et := newEndTables()
+			cutEffective := 0
+			if b.Cut > 0 {
+				probe := b
+				probe.Cut = 0
+				full := 0
+				for _, a := range probe.script(&rng{s: 1}, newEndTables()) {
+					if a.Op == "write" {
+						full += len(a.Data)
+					}
+				}
+				if b.Cut < full {
+					cutEffective = b.Cut
+				}
+			}
 			script := b.script(r, et)
 			res := runScenario(cfg, req, script, nil)
 			if res.BuildErr != "" {
@@ -467,7 +496,61 @@ func init() {
 					endLen = lim + 1
 				}
 			}
-			in := L{tconfV(cfg), in2, scriptV(script), tables.value(), et.value(), endLen}
+			// the backend's intent, for the monitors
+			var body []byte
+			for _, a := range script {
+				if a.Op == "write" {
+					body = append(body, a.Data...)
+				}
+			}
+			envelopedTarget := !(target == vanguard.ProtocolConnect && !streaming)
+			lenient := false
+			if cutEffective > 0 && !envelopedTarget {
+				// a shorter body from a backend without message framing is only detectable if it has
+				// to be decoded: either outcome is acceptable
+				lenient = true
+			}
+			if cutEffective > 0 && envelopedTarget && checkFrames(body) == "" {
+				// cut exactly at a frame boundary: a well-formed shorter stream
+				cutEffective = 0
+				if b.Target != vanguard.ProtocolGRPC {
+					lenient = true // the end frame itself may have been cut off
+				}
+			}
+			wellformed := b.WrongCT == "" && (b.Comp == "" || b.Comp == "gzip" || b.Comp == "identity") && cutEffective == 0 &&
+				b.ErrCode >= 0 && b.ErrCode <= 16
+			if b.BareStatus/100 == 2 && b.BareStatus != 200 {
+				wellformed = false // a 2xx other than 200 is not a defined outcome of the RPC protocols
+			}
+			kind := int64(0)
+			if b.BareStatus != 0 {
+				kind = 2
+			} else if b.ErrCode != 0 {
+				kind = 1
+			}
+			hdrOf := func(kvs [][2]string) L {
+				h := map[string][]string{}
+				var order []string
+				for _, kv := range kvs {
+					k := canonical(kv[0])
+					if _, ok := h[k]; !ok {
+						order = append(order, k)
+					}
+					h[k] = append(h[k], kv[1])
+				}
+				out := L{}
+				for _, k := range order {
+					out = append(out, L{B(k), Bl(h[k])})
+				}
+				return out
+			}
+			trailers := b.Trailers
+			if kind == 2 {
+				trailers = nil
+			}
+			intent := L{int64(form), wellformed, kind, b.ErrCode, B(b.ErrMsg), b.errValue()[2], hdrOf(trailers), hdrOf(b.Headers),
+				target == vanguard.ProtocolConnect && !streaming, int64(b.BareStatus), b.TrailersOnly, lenient}
+			in := L{tconfV(cfg), in2, scriptV(script), tables.value(), et.value(), endLen, intent}
 			pairing := fmt.Sprintf("%s<%s", formNames[form], target)
 			tags := []string{"respflow:" + tag, "respflow.pair:" + pairing}
 			if view.Framing != "" {
